@@ -80,7 +80,7 @@ var c02Files = []string{"var_ops.go", "var_set.go", "var_set_value.go", "var_shi
 func c02Rules(c *Ctx) {
 	ruleUniformity(c, "fast", c02Files, "U-uniform")
 	ruleDepth(c, "fast", c02Files, "A3-depth", "A4-storage")
-	opOf := ruleDispatchTables(c, "fast", []string{"fast.Comp.setVar", "fast.Comp.setPlace"}, "A5")
+	opOf := ruleDispatchTables(c, "fast", []string{"fast.Comp.setVar", "fast.Comp.setPlace", "fast.Comp.setPlaceShift"}, "A5")
 	ruleOperatorAnchor(c, "fast", opOf, "A5-operator", "A6-order", nil)
 	ext := extendOps(c, "fast", opOf)
 	ruleShortcuts(c, "fast", ext, "A7-shortcut", nil)
@@ -127,6 +127,7 @@ func init() {
 			{Name: "key-copy-dropped", File: "fast/assignment.go", Old: "if tmp = a.placekey(env); tmp.CanSet() {\n\t\t\t\ttmp = tmp.Convert(tmp.Type())\n\t\t\t}\n\t\t\tkeys[i] = tmp", New: "keys[i] = a.placekey(env)"},
 			{Name: "intbinds-arms-swapped", File: "fast/var_set.go", Old: "intbinds := va.Desc.Class() == IntBind", New: "intbinds := va.Desc.Class() != IntBind", Nth: 1},
 			{Name: "dec-compiles-as-add", File: "fast/statement.go", Old: "op = token.SUB\n\t} else {\n\t\top = token.ADD", New: "op = token.ADD\n\t} else {\n\t\top = token.SUB"},
+			{Name: "place-shl-dispatched-to-shr", File: "fast/place_ops.go", Old: "\t\tcase token.SHL, token.SHL_ASSIGN:\n\t\t\treturn c.placeShlConst(place, count)\n", New: "\t\tcase token.SHL, token.SHL_ASSIGN:\n\t\t\treturn c.placeShrConst(place, count)\n"},
 			{Name: "shl-dispatched-to-shr", File: "fast/var_ops.go", Old: "return c.varShlConst(va, val)", New: "return c.varShrConst(va, val)"},
 		},
 	})
